@@ -171,6 +171,14 @@ func impureStep(x *Ctx, v ssa.Value, seen map[ssa.Value]bool, depth int) string 
 		}
 		return impureStep(x, t.Tuple, seen, depth+1)
 	case *ssa.Convert:
+		// a conversion between a float and an integer changes the kind of the value that is stored
+		if fb, ok := t.X.Type().Underlying().(*types.Basic); ok {
+			if tb, ok := t.Type().Underlying().(*types.Basic); ok {
+				if (fb.Info()&types.IsFloat != 0) != (tb.Info()&types.IsFloat != 0) && (fb.Info()|tb.Info())&types.IsNumeric != 0 && fb.Info()&types.IsNumeric != 0 && tb.Info()&types.IsNumeric != 0 {
+					return "it is converted between float and integer: " + t.String()
+				}
+			}
+		}
 		return impureStep(x, t.X, seen, depth+1)
 	case *ssa.ChangeType:
 		return impureStep(x, t.X, seen, depth+1)
